@@ -1025,11 +1025,22 @@ Proof.
   apply shares_quantum; try assumption. apply num_fractions_proportional.
 Qed.
 
-(* --- quantity ratios: one type, linear units (reference unit, non-zero
-   scale), the unit of the first ratio unquantized (the total is accumulated
-   in that unit) --- *)
+(* --- quantity ratios of one type with linear units (reference unit, non-zero
+   scale).  The total is accumulated in the first ratio's unit through the
+   constructor: either that unit is unquantized, or the ratio type is
+   quantized and all ratios lie on one absolute grid Qc (the class quantum in
+   reference units: unit quantum * scale = Qc), as every constructed
+   quantity of a quantized type does. --- *)
 Definition ratio_unit_ok (u0 : unit) (q : qty) : Prop :=
   lin (q_unit q) = true /\ same_cls u0 (q_unit q) = true.
+
+Definition ratio_grid_ok (Qc : Q) (q : qty) : Prop :=
+  exists qv, u_quantum (q_unit q) = Some qv /\ qv * scale (q_unit q) == Qc /\
+             on_grid (q_amt q) qv.
+
+Definition ratio_type_ok (q0 : qty) (qs : list qty) : Prop :=
+  u_quantum (q_unit q0) = None \/
+  exists Qc, ~ Qc == 0 /\ Forall (ratio_grid_ok Qc) (q0 :: qs).
 
 Lemma sum_qty_ratios ce dm u0 : u_quantum u0 = None -> lin u0 = true ->
   forall qs acc, q_unit acc = u0 -> Forall (ratio_unit_ok u0) qs ->
@@ -1043,6 +1054,29 @@ Proof.
     destruct (addsub_refv false ce dm a u0 b v L0 Lx Cx Q0) as (r & Hadd & Ur & Vr).
     cbn [map sum_ratios_from]. unfold qty_add. rewrite Hadd. cbn [bind].
     destruct (IH r Ur Hr) as (t & Ht & Ut & Vt).
+    exists t. split; [exact Ht|]. split; [exact Ut|].
+    rewrite Vt, Vr. cbn [pm map qsum]. ring.
+Qed.
+
+Lemma sum_qty_ratios_q ce dm u0 qu0 Qc : ~ Qc == 0 -> lin u0 = true ->
+  u_quantum u0 = Some qu0 -> qu0 * scale u0 == Qc ->
+  forall qs acc, q_unit acc = u0 -> on_grid (q_amt acc) qu0 ->
+  Forall (ratio_unit_ok u0) qs -> Forall (ratio_grid_ok Qc) qs ->
+  exists t, sum_ratios_from ce dm (TQty acc) (map RQty qs) = Ok (TQty t) /\
+            q_unit t = u0 /\ refv t == refv acc + qsum (map refv qs).
+Proof.
+  intros NQ L0 Q0 G0.
+  assert (Nq : ~ qu0 == 0) by (intros E; apply NQ; rewrite <- G0, E; ring).
+  induction qs as [|x qs IH]; intros acc Ha Oa H HG.
+  - exists acc. cbn [map sum_ratios_from qsum]. split; [reflexivity|]. split; [exact Ha | ring].
+  - pose proof (Forall_inv H) as [Lx Cx]. pose proof (Forall_inv_tail H) as Hr.
+    pose proof (Forall_inv HG) as (qv & Qv & Gv & Ov). pose proof (Forall_inv_tail HG) as HGr.
+    destruct acc as [a u], x as [b v]. cbn [q_unit q_amt] in *. subst u.
+    assert (GG : qu0 * scale u0 == qv * scale v) by (rewrite G0, Gv; reflexivity).
+    destruct (addsub_quantized_exact false ce dm a u0 b v qu0 qv L0 Lx Cx Q0 Qv Nq GG Oa Ov)
+      as (r & Hadd & Ur & Vr & Gr).
+    cbn [map sum_ratios_from]. unfold qty_add. rewrite Hadd. cbn [bind].
+    destruct (IH r Ur Gr Hr HGr) as (t & Ht & Ut & Vt).
     exists t. split; [exact Ht|]. split; [exact Ut|].
     rewrite Vt, Vr. cbn [pm map qsum]. ring.
 Qed.
@@ -1081,13 +1115,19 @@ Lemma Forall2_map_r {A B C} (R : A -> C -> Prop) (g : B -> C) l l' :
 Proof. induction 1; cbn [map]; constructor; assumption. Qed.
 
 Theorem allocate_quantities ce dm self q0 qs disperse :
-  u_quantum (q_unit q0) = None -> Forall (ratio_unit_ok (q_unit q0)) (q0 :: qs) ->
+  ratio_type_ok q0 qs -> Forall (ratio_unit_ok (q_unit q0)) (q0 :: qs) ->
   ~ qsum (map refv (q0 :: qs)) == 0 ->
   exists fs, proportional fs (map refv (q0 :: qs)) /\
     allocate ce dm self (map RQty (q0 :: qs)) disperse = alloc_core ce dm self fs disperse.
 Proof.
-  intros Q0 H Hs. inversion H as [|? ? [L0 _] Hr]. subst.
-  destruct (sum_qty_ratios ce dm (q_unit q0) Q0 L0 qs q0 eq_refl Hr) as (t & Ht & Ut & Vt).
+  intros HT H Hs. pose proof (Forall_inv H) as [L0 _]. pose proof (Forall_inv_tail H) as Hr.
+  assert (ST : exists t, sum_ratios_from ce dm (TQty q0) (map RQty qs) = Ok (TQty t) /\
+                         q_unit t = q_unit q0 /\ refv t == refv q0 + qsum (map refv qs)).
+  { destruct HT as [Q0 | (Qc & NQ & HG)].
+    - apply (sum_qty_ratios ce dm (q_unit q0) Q0 L0 qs q0 eq_refl Hr).
+    - pose proof (Forall_inv HG) as (qv & Qv & Gv & Ov). pose proof (Forall_inv_tail HG) as HGr.
+      apply (sum_qty_ratios_q ce dm (q_unit q0) qv Qc NQ L0 Qv Gv qs q0 eq_refl Ov Hr HGr). }
+  destruct ST as (t & Ht & Ut & Vt).
   assert (Vt' : refv t == qsum (map refv (q0 :: qs))) by (rewrite Vt; reflexivity).
   assert (Nt : ~ refv t == 0) by (rewrite Vt'; exact Hs).
   destruct (fractions_qty ce (q_unit q0) t L0 Ut Nt (q0 :: qs) H) as (fs & Hfs & F2).
@@ -1098,8 +1138,66 @@ Proof.
     change (RQty q0 :: map RQty qs) with (map RQty (q0 :: qs)). rewrite Hfs. reflexivity.
 Qed.
 
+(* --- quantity ratios that all carry one and the same unit (any type, with
+   or without reference unit: e.g. money amounts in one currency) --- *)
+Lemma sum_ratios_same_unit ce dm u0 : uq_ok u0 -> forall qs acc,
+  q_unit acc = u0 -> ugrid u0 (q_amt acc) ->
+  Forall (fun q => q_unit q = u0 /\ ugrid u0 (q_amt q)) qs ->
+  exists t, sum_ratios_from ce dm (TQty acc) (map RQty qs) = Ok (TQty t) /\
+            q_unit t = u0 /\ q_amt t == q_amt acc + qsum (amts qs).
+Proof.
+  intros Hu. induction qs as [|x qs IH]; intros acc Ha Ga H.
+  - exists acc. cbn [map sum_ratios_from qsum]. split; [reflexivity|]. split; [exact Ha | ring].
+  - pose proof (Forall_inv H) as [Ux Gx]. pose proof (Forall_inv_tail H) as Hr.
+    cbn [map sum_ratios_from]. unfold qty_add.
+    rewrite (addsub_same_unit false ce dm acc x u0 Ha Ux). cbn [bind].
+    set (acc' := mk_qty dm (qadd (q_amt acc) (q_amt x)) u0).
+    assert (Gq : ugrid u0 (qadd (q_amt acc) (q_amt x))).
+    { apply (ugrid_compat _ (q_amt acc + q_amt x)); [symmetry; apply qadd_ok|].
+      apply ugrid_add; assumption. }
+    assert (Ea : q_amt acc' == q_amt acc + q_amt x).
+    { unfold acc'. rewrite (mk_exact dm _ _ Hu Gq). apply qadd_ok. }
+    destruct (IH acc' (mk_qty_unit _ _ _) (ugrid_mk _ _ _) Hr) as (t & Ht & Ut & Vt).
+    exists t. split; [exact Ht|]. split; [exact Ut|].
+    rewrite Vt, Ea. cbn [map qsum]. ring.
+Qed.
+
+Lemma fractions_same_unit ce u0 t : q_unit t = u0 -> ~ q_amt t == 0 ->
+  forall qs, Forall (fun q => q_unit q = u0) qs ->
+  fractions_of ce (map RQty qs) (TQty t) = Ok (map (fun q => qdiv (q_amt q) (q_amt t)) qs).
+Proof.
+  intros Ut Nt. apply qzero_false in Nt. induction qs as [|x qs IH]; intros H; [reflexivity|].
+  pose proof (Forall_inv H) as Ux. pose proof (Forall_inv_tail H) as Hr.
+  cbn [map fractions_of ratio_div]. rewrite Ux, Ut.
+  unfold same_cls at 1. rewrite N.eqb_refl.
+  unfold equiv_amount. rewrite Ut, unit_eq_refl. cbn [bind]. rewrite Nt. cbn [bind].
+  rewrite (IH Hr). reflexivity.
+Qed.
+
+Theorem allocate_quantities_same_unit ce dm self q0 qs disperse :
+  uq_ok (q_unit q0) ->
+  Forall (fun q => q_unit q = q_unit q0 /\ ugrid (q_unit q0) (q_amt q)) (q0 :: qs) ->
+  ~ qsum (amts (q0 :: qs)) == 0 ->
+  exists fs, proportional fs (amts (q0 :: qs)) /\
+    allocate ce dm self (map RQty (q0 :: qs)) disperse = alloc_core ce dm self fs disperse.
+Proof.
+  intros Hu H Hs. pose proof (Forall_inv H) as [_ G0]. pose proof (Forall_inv_tail H) as Hr.
+  destruct (sum_ratios_same_unit ce dm (q_unit q0) Hu qs q0 eq_refl G0 Hr) as (t & Ht & Ut & Vt).
+  assert (Vt' : q_amt t == qsum (amts (q0 :: qs))) by (rewrite Vt; reflexivity).
+  assert (Nt : ~ q_amt t == 0) by (rewrite Vt'; exact Hs).
+  assert (HU : Forall (fun q => q_unit q = q_unit q0) (q0 :: qs))
+    by (eapply Forall_impl; [|exact H]; intros q [A _]; exact A).
+  exists (map (fun q => qdiv (q_amt q) (q_amt t)) (q0 :: qs)). split.
+  - unfold proportional. apply Forall2_map_r.
+    generalize (q0 :: qs) at 2 3. intros l. induction l as [|x l IH]; cbn [map]; constructor; [|exact IH].
+    rewrite qdiv_ok, Vt'. reflexivity.
+  - unfold allocate. cbn [map sum_ratios]. rewrite Ht. cbn [bind].
+    change (RQty q0 :: map RQty qs) with (map RQty (q0 :: qs)).
+    rewrite (fractions_same_unit ce (q_unit q0) t Ut Nt _ HU). reflexivity.
+Qed.
+
 Theorem allocate_quantities_no_quantum ce dm self q0 qs disperse :
-  u_quantum (q_unit q0) = None -> Forall (ratio_unit_ok (q_unit q0)) (q0 :: qs) ->
+  ratio_type_ok q0 qs -> Forall (ratio_unit_ok (q_unit q0)) (q0 :: qs) ->
   ~ qsum (map refv (q0 :: qs)) == 0 ->
   u_quantum (q_unit self) = None ->
   exists ps r, allocate ce dm self (map RQty (q0 :: qs)) disperse = Ok (ps, r) /\
@@ -1112,7 +1210,7 @@ Proof.
 Qed.
 
 Theorem allocate_quantities_quantum ce dm self q0 qs disperse qu :
-  u_quantum (q_unit q0) = None -> Forall (ratio_unit_ok (q_unit q0)) (q0 :: qs) ->
+  ratio_type_ok q0 qs -> Forall (ratio_unit_ok (q_unit q0)) (q0 :: qs) ->
   ~ qsum (map refv (q0 :: qs)) == 0 ->
   u_quantum (q_unit self) = Some qu -> 0 < qu -> ugrid (q_unit self) (q_amt self) ->
   exists ps r, allocate ce dm self (map RQty (q0 :: qs)) disperse = Ok (ps, r) /\
